@@ -149,6 +149,24 @@ def job_cfg(job):
                 bad("handshake-rejected", "client rejected the server's SETTINGS: %s %s" % (r.brief(), r.msg))
                 continue
             r2 = H.recv(s, r.raw)
+            # calls that must be refused on the upgraded connection leave it as it was ("both then continue as a normal connection")
+            cc = pickle.loads(pickle.dumps(c))
+            r0 = H.call(cc, "send_data", 1, b"x" * 1500)          # no request body on the upgraded stream
+            r1 = H.call(cc, "send_headers", 3, H.ni(H.REQ_POST))
+            if r1.kind == "ok":
+                w = cc.local_flow_control_window(3)
+                want_w = min(65535, {int(k): v for k, v in cc.remote_settings.items()}.get(4, 65535))
+                if r0.kind != "raise" or w != want_w:
+                    bad("refused-call-on-stream-1-had-an-effect", "client send_data(1, 1500 bytes) -> %s; afterwards the send window of the first "
+                        "new stream is %d, expected %d" % (r0.brief(), w, want_w), call="send_data")
+            if local[2] == 1:
+                ss = pickle.loads(pickle.dumps(s))
+                r0 = H.call(ss, "push_stream", 1, 2, [h for h in H.REQ if h[0] != b":path"])      # refused: no :path
+                rid = H.call(ss, "get_next_available_stream_id")
+                r1 = H.call(ss, "push_stream", 1, 2, H.REQ)
+                if r0.kind != "raise" or rid.ret != 2 or r1.kind != "ok":
+                    bad("refused-call-on-stream-1-had-an-effect", "server push_stream(1, 2, <list without :path>) -> %s; afterwards next id %r "
+                        "(expected 2), push_stream(1, 2, <valid>) -> %s" % (r0.brief(), rid.ret, r1.brief()), call="push_stream")
             push_ok = H.call(pickle.loads(pickle.dumps(s)), "push_stream", 1, 2, H.REQ)
             if local[2] == 1 and push_ok.kind != "ok":
                 bad("push-refused-although-enabled", "server push_stream(1,2) -> %s" % push_ok.brief())
